@@ -151,6 +151,29 @@ pub fn pool(seed: u64, scratch: &std::path::Path, write_files: bool) -> Vec<Prog
         }
         v.push(Prog { name: name.to_string(), kind: b'F', text: p.to_string_lossy().to_string(), dirs: vec![inc.clone()] });
     }
+    // builds that fail while several files are open: files that include each other, a cycle entered from
+    // outside, a failing line four files deep - an error text that lists the files involved must list them
+    // in the same order every time
+    let cyc = scratch.join("cycles");
+    if write_files {
+        let _ = std::fs::create_dir_all(cyc.join("deep"));
+        let w = |n: &str, t: &str| {
+            let _ = std::fs::write(cyc.join(n), t);
+        };
+        w("mutual_a.asm", "nop\n.include \"mutual_b.inc\"\n");
+        w("mutual_b.inc", "nop\n.include \"mutual_a.asm\"\n");
+        w("ring_main.asm", ".include \"ring_one.inc\"\nret\n");
+        w("ring_one.inc", "nop\n.include \"ring_two.inc\"\n");
+        w("ring_two.inc", "nop\n.include \"ring_three.inc\"\n");
+        w("ring_three.inc", "nop\n.include \"ring_two.inc\"\n");
+        w("deep_main.asm", ".equ top = 1\n.include \"deep/d1.inc\"\n");
+        w("deep/d1.inc", ".equ d1 = 2\n.include \"d2.inc\"\n");
+        w("deep/d2.inc", ".equ d2 = 3\n.include \"d3.inc\"\n");
+        w("deep/d3.inc", ".equ d3 = 4\n\tldi r16, top + d1 + d2 + d3 + not_defined_in_any_of_the_four\n");
+    }
+    for name in ["mutual_a", "ring_main", "deep_main"] {
+        v.push(Prog { name: format!("file-{}", name.replace('_', "-")), kind: b'F', text: cyc.join(format!("{}.asm", name)).to_string_lossy().to_string(), dirs: vec![] });
+    }
     v
 }
 
